@@ -18,6 +18,12 @@ def run(ctx):
     race = vlib.build_harness(ctx, race=True)
     quick = ctx.tier == "quick"
     vlib.design_check(ctx, "status", "Status", "Status_communicated.cfg")
+    # the result of the transfer is stored before the close that releases the final report; storing it afterwards (a
+    # deferred store behind the deferred close) races with the consumer of the Done report and may show an incomplete message
+    for cfg, inv in (("Status_storelate.cfg", "NoRace"), ("Status_storelate_sees.cfg", "FinalSeesResult")):
+        late = vlib.tlc(ctx, "status", "Status", cfg)
+        if late.violated != inv:
+            raise vlib.Undecided("%s no longer violates %s" % (cfg, inv))
     dev = vlib.tlc(ctx, "status", "Status", "Status_shared.cfg")
     if dev.violated != "NoRace":
         raise vlib.Undecided("the implementation-shaped configuration no longer exhibits the race")
@@ -66,6 +72,10 @@ def run(ctx):
             what = "data race between " + " and ".join(ev["where"])
         elif ev.get("op") == "End":
             key, what = "C17/done-count", "not exactly one Done report per transferred message and side"
+            dones = {(e["side"], e["mid"]): e.get("complete") for e in evs if e["op"] == "Status" and e["done"] and e["dir"] == "recv"}
+            recvd = [tuple(x) for x in ev.get("received", [])]
+            if all(k in dones for k in recvd) and any(not dones[k] for k in recvd):
+                key, what = "C17/final-report-incomplete", "the Done report of a received message shows a proposal whose data is not complete"
         else:
             key, what = "C17/report-malformed", "status report out of range / wrong total / after Done: %s" % json.dumps(ev)[:300]
         vlib.report_violation(ctx, key, what, {"events": evs[max(0, l - 6):l], "meta": {k: v for k, v in rows[t - 1].items() if k != "ev"}})
